@@ -199,6 +199,34 @@ def read_records(data, budget=True):
     return records, None
 
 
+class WatchdogTimeout(BaseException):
+    """Not an Exception: nothing in the code under test may swallow it."""
+
+
+class watchdog(object):
+    """with watchdog(30): ...  -- raises WatchdogTimeout in the main thread
+    after that many seconds of wall time (SIGALRM; also interrupts a regular
+    expression that backtracks for ever)."""
+
+    def __init__(self, seconds):
+        self.seconds = seconds
+
+    def _fire(self, signum, frame):
+        raise WatchdogTimeout()
+
+    def __enter__(self):
+        import signal
+        self.old = signal.signal(signal.SIGALRM, self._fire)
+        signal.alarm(self.seconds)
+        return self
+
+    def __exit__(self, *exc):
+        import signal
+        signal.alarm(0)
+        signal.signal(signal.SIGALRM, self.old)
+        return False
+
+
 OTHER_FILE = (b'#diffx: encoding=utf-8, version=1.0\n#.preamble: length=6\n'
               b'hello\n#.change:\n#..preamble: length=3\nhi\n#..file:\n'
               b'#...meta: format=json, length=9\n{"a": 1}\n'
